@@ -209,6 +209,19 @@ fn check_component(mut so: &mut std::io::StdoutLock, comp: &[u8], sw: Option<&Va
                     }
                 }
             }
+            // C01: a graph that only registers and instantiates this component was assembled from
+            // accepted operations: it encodes, under every combination of options, to a valid component
+            for (dc, va) in [(true, true), (true, false), (false, true), (false, false)] {
+                match guarded(|| g.encode(EncodeOptions { define_components: dc, validate: va, processor: None })) {
+                    Err(pn) => emit(&mut so, "c01_panic", format!("encode(define_components={dc}, validate={va}) panicked: {pn}")),
+                    Ok(Err(e)) => emit(&mut so, "c01_encode", format!("encode(define_components={dc}, validate={va}) of an accepted graph fails: {e}")),
+                    Ok(Ok(out)) => {
+                        if let Err(e) = validate(&out) {
+                            emit(&mut so, "c01_invalid", format!("encode(define_components={dc}, validate={va}) returned Ok but the reference validator rejects the bytes: {e}"));
+                        }
+                    }
+                }
+            }
     }
     (findings, dep_checks)
 }
